@@ -16,7 +16,7 @@ NAMES == {"h1", "h2", "h3", "h4"}
 
 TInit == /\ tid \in 1..Len(TraceLog) /\ l = 1 /\ justStarted = FALSE /\ cleanStarts = 0
          /\ obs = [disk |-> <<>>, db |-> [h1 |-> "absent", h2 |-> "absent", h3 |-> "absent", h4 |-> "absent"], completed |-> <<>>]
-Quiet == {"Crash", "StartScan", "StartSync", "StartEnsure"}      \* events that are part of dying and starting
+Quiet == {"Crash", "Stop", "StartScan", "StartSync", "StartEnsure"}      \* events that are part of dying and starting
 TNext == /\ l <= Len(T.ev) /\ l' = l + 1 /\ tid' = tid
          /\ obs' = T.ev[l].obs
          /\ justStarted' = (T.ev[l].event = "StartEnsure")
